@@ -5,6 +5,8 @@ import Rv.Oracle.Auth
 import Rv.Oracle.Proxy
 import Rv.Oracle.Certs
 import Rv.Oracle.Config
+import Rv.Oracle.Flight
+import Rv.Oracle.Access
 /-
   Rv.Oracle — dispatch of op lines to the stateless and stateful model drivers.
 -/
@@ -17,6 +19,7 @@ structure OState where
   px : Proxy.PState := {}
   ce : Certs.CState := {}
   cf : Config.CfState := {}
+  ac : Access.AState := {}
 
 def splitArrow : List String → List String → (List String × String)
   | [], acc => (acc.reverse, "")
@@ -44,6 +47,15 @@ def step (os : OState) (line : String) : OState × String :=
   | "cf" :: _ =>
     let (c, m, v) := Config.step os.cf fs obs
     ({ os with cf := c }, m ++ "\t" ++ v)
+  | "ac" :: _ =>
+    let (a, m, v) := Access.step os.ac fs obs
+    ({ os with ac := a }, m ++ "\t" ++ v)
+  | "fl" :: _ =>
+    let (m, v) := Flight.step fs obs
+    (os, m ++ "\t" ++ v)
+  | "rs" :: _ =>
+    -- C15 dynamic scenarios: the op itself only has to complete; the race detector's reports arrive as `ac race` lines
+    (os, "completed\t" ++ (if obs = "completed" then "ok" else if obs.startsWith "HANG" then "bad:operation-does-not-complete" else "bad:" ++ obs))
   | "ls" :: _ =>
     -- C14: the theorem says every schedule completes; the model observation is the constant "completed"
     (os, "completed\t" ++ (if obs = "completed" then "ok" else if obs.startsWith "HANG" then "bad:operation-does-not-complete" else "bad:" ++ obs))
